@@ -811,8 +811,10 @@ func (ch *Channel) connectionCloseStateChange(c *Connection) {
 	if updateTo > 0 {
 		ch.mutable.Lock()
 		// Recheck the state as it's possible another goroutine changed the state
-		// from what we expected, and so we might make a stale change.
-		if ch.mutable.state == chState {
+		// from what we expected, and so we might make a stale change. The state
+		// only moves forward: an update that is still ahead of the current state
+		// must not be dropped, or the channel never reaches it.
+		if ch.mutable.state >= ChannelStartClose && ch.mutable.state < updateTo {
 			ch.mutable.state = updateTo
 			updatedToState = updateTo
 		}
